@@ -226,6 +226,16 @@ func runCase(res *vkit.Result, c Case) {
 			got.Del("User-Agent")
 			want.Del("User-Agent")
 		}
+		if c.Gun == "http2" {
+			// HTTP/2 carries a Cookie header as one field per cookie pair (RFC 9113 §8.2.3): the
+			// client splits the value at every ";" and the server joins the pieces with "; " — the
+			// cookies are the same, the blanks after the semicolons are not part of them
+			for _, h := range []http.Header{got, want} {
+				for i, v := range h["Cookie"] {
+					h["Cookie"][i] = h2Cookie(v)
+				}
+			}
+		}
 		if hd := vkit.DiffHeader(got, want); hd != "" {
 			cls := "headers"
 			for _, kv := range c.Conf {
@@ -294,6 +304,27 @@ func answLogPath() string {
 		d = os.TempDir()
 	}
 	return filepath.Join(d, fmt.Sprintf("c09-answ-%d.log", os.Getpid()))
+}
+
+// h2Cookie is what a Cookie value looks like after the split and re-join of HTTP/2.
+func h2Cookie(v string) string {
+	var parts []string
+	for len(v) > 0 {
+		p := strings.IndexByte(v, ';')
+		if p < 0 {
+			break
+		}
+		parts = append(parts, v[:p])
+		p++
+		for p < len(v) && v[p] == ' ' {
+			p++
+		}
+		v = v[p:]
+	}
+	if len(v) > 0 {
+		parts = append(parts, v)
+	}
+	return strings.Join(parts, "; ")
 }
 
 func canon(k string) string {
